@@ -1335,6 +1335,12 @@ class Engine:
     def check_lifecycle(self, op):
         cs = self.sim.code_state()
         want = self.model_counts()
+        # the program's own module: whatever ptera parks there goes under names of its own -- a key
+        # that is not a string breaks the program's ``sorted(globals())`` / ``dir(module)``
+        odd = [repr(k) for k in vars(self.sim.v["sys"].mod) if not isinstance(k, str)]
+        if odd and not getattr(self, "_odd_reported", False):
+            self._odd_reported = True
+            self.violate("C05.module_namespace", {"after": op.get("op"), "keys that are not strings": odd})
         for q, d in cs.items():
             w = want.get(q, 0)
             if w == 0:
